@@ -310,6 +310,30 @@ fn cli_runs(texts: &[(String, String)], n: usize) -> Result<(), String> {
             _ => {}
         }
     }
+    // the same files named through a configuration file, from three other working directories
+    if res.is_ok() {
+        std::fs::write(format!("{dir}/oal.toml"), "[api]\nmain = \"main.oal\"\ntarget = \"outc.yaml\"\n").expect("harness: write oal.toml");
+        let sub = format!("{dir}/w d");
+        std::fs::create_dir_all(&sub).expect("harness: sub-directory");
+        for cwd in [sub.as_str(), "/var/tmp", "/"] {
+            let out = format!("{dir}/outc.yaml");
+            let _ = std::fs::remove_file(&out);
+            let st = std::process::Command::new(&cli)
+                .args(["--conf", &format!("{dir}/oal.toml")])
+                .current_dir(cwd)
+                .stderr(std::process::Stdio::null())
+                .stdout(std::process::Stdio::null())
+                .status();
+            if let Err(e) = st {
+                panic!("harness: cannot run oal-cli: {e}");
+            }
+            let bytes = std::fs::read(&out).unwrap_or_default();
+            if Some(&bytes) != first.as_ref() {
+                res = Err(format!("the process started in {cwd:?} (sources named through --conf) wrote a different document than the one started in the source directory"));
+                break;
+            }
+        }
+    }
     let _ = std::fs::remove_dir_all(&dir);
     res
 }
@@ -669,7 +693,7 @@ impl Engine for C06 {
         let mut v = vec![
             Phase::new("all choice tapes with <= 2 deviations per corpus program", json!({"kind":"tapes","thorough":t})),
             Phase::new("ordered pairs of corpus programs compiled in one process (first: every 4th program and the 12 built for this property, thorough every one; second: every one)", json!({"kind":"pairs","thorough":t})),
-            Phase::new("free-running confirmation: oal-cli in 6 fresh processes per program (not the deciding step)", json!({"kind":"cli","thorough":t})).workers(8),
+            Phase::new("free-running confirmation: oal-cli in 6 fresh processes per program (not the deciding step), then from three other working directories through --conf", json!({"kind":"cli","thorough":t})).workers(8),
         ];
         v.push(Phase::new(
             &format!("oal-cli histories: every sequence of <= {} operations (compile to the same target, edit main / the import / the base, delete the target), target compared with a compilation of the same sources in a fresh directory", if t { 5 } else { 4 }),
